@@ -274,7 +274,7 @@ def g_PH_exact():
     return run
 
 
-BUDGET_S = {'quick': 400, 'thorough': 3000}
+BUDGET_S = {'quick': 400, 'thorough': 1200}
 
 
 def groups(tier):
